@@ -1,6 +1,6 @@
 #!/usr/bin/env python3
 """show.py [--cfg default|all] <regex> : pretty-print MIR facts of matching functions"""
-import os, sys
+import os, re, sys
 sys.path.insert(0, os.path.dirname(os.path.abspath(__file__)))
 import extract, facts as F
 from cfg import place_str, op_place
@@ -33,7 +33,12 @@ def rvs(rv):
     return rv.get("s", r)
 
 
+COMPACT = False
+
+
 def show(fn, live_only=True):
+    if COMPACT:
+        return show_compact(fn)
     print("=" * 100)
     print("fn %s  [%s:%d-%d] argc=%d coroutine=%s ret=%s" % (fn.key, fn.file, fn.rec["lo"], fn.rec["hi"], fn.argc, fn.is_coroutine, fn.ret))
     print("names:", ", ".join("%s=%s" % (n, place_str(p)) for n, p in fn.rec["names"]))
@@ -66,8 +71,31 @@ def show(fn, live_only=True):
             print("    %-6d %s%s" % (t["ln"], k.upper(), ex))
 
 
+def show_compact(fn):
+    """hide macro-expanded statements, gotos, drops and blocks that become empty"""
+    import io, contextlib
+    buf = io.StringIO()
+    global COMPACT
+    COMPACT = False
+    with contextlib.redirect_stdout(buf):
+        show(fn)
+    COMPACT = True
+    out = []
+    for ln in buf.getvalue().splitlines():
+        if "{m:" in ln or re.match(r"^\s+\d+\s+(goto|drop) ", ln):
+            continue
+        if re.match(r"^ bb\d+:$", ln) and out and re.match(r"^ bb\d+:$", out[-1]):
+            out[-1] = ln
+            continue
+        out.append(ln[:int(os.environ.get("SHOW_W", "210"))])
+    print("\n".join(out))
+
+
 if __name__ == "__main__":
     args = sys.argv[1:]
+    if args and args[0] == "-c":
+        COMPACT = True
+        args = args[1:]
     cfgname = "default"
     if args and args[0] == "--cfg":
         cfgname = args[1]; args = args[2:]
